@@ -21,6 +21,7 @@ HARNESS = {
     "shim_complete": dict(kind="shim", proved=False, fns=["nom::combinator::complete"], bound="input <= 3 bytes, cheap element parser"),
     "shim_many1": dict(kind="shim", proved=False, fns=["nom::multi::many1"], bound="input <= 4 bytes, cheap element parser (u8 elements)"),
     "shim_many0": dict(kind="shim", proved=False, fns=["nom::multi::many0"], bound="input <= 4 bytes, cheap element parser (u8 elements)"),
+    "shim_opt_cond": dict(kind="shim", proved=False, fns=["nom::combinator::opt", "nom::combinator::cond", "nom::combinator::map"], bound="input <= 3 bytes, cheap element parser"),
     "shim_map_parser": dict(kind="shim", proved=False, fns=["nom::combinator::map_parser"], bound="input <= 5 bytes, count usize full domain, cheap inner parser"),
 }
 def _leaf(name, fns, bound, kind="leaf", proved=False):
@@ -188,11 +189,11 @@ PROPS = {
         level_text="Dispatcher: unbounded deductive proof (Verus) on the real parse_tls_message_handshake body - type/u24 framing, type -> body-parser table for all 256 codes, body isolated to exactly the declared bytes before any body parser runs, exact consumption, Switch for unknown types, Incomplete(missing) for cut-off messages. Bodies: one Kani contract harness per body parser on the compiled code against an index-based reference decoder written from the RFCs (every field, order, presence/absence, every rejection rule of the property as its own assertion, pointer-exact slices): complete in byte contents and in every integer parameter, BOUNDED in input length. ClientHello is verified modularly against the contracts of the cipher/compression list helpers, which have their own leaf harnesses.",
         level_note="Trusted: nom shim contracts be_u8/be_u24/take (Kani shim_be, shim_take); body parsers are uninterpreted in Verus with the assumed fact 'on success returns its own variant' (asserted by each Kani leaf); reference decoders in /verif/kani/pub_c04_handshake.rs are hand-written from RFC 5246/8446/5077/6066; contract stubs for parse_cipher_suites/parse_compressions_algs return an unconstrained (dummy) list content - the caller never inspects it.",
         technique="contract-based deductive verification: Verus on the extracted dispatcher + Kani contract harnesses per body parser (modular for ClientHello)",
-        verus=["dispatch_hs", "bodies"],
+        verus=["dispatch_hs", "bodies", "bodies2"],
         kani=[dict(quick=["leaf_hs_ske", "leaf_hs_serverdone", "leaf_hs_certverify", "leaf_hs_cke", "leaf_hs_finished", "fd_hs_hello_request", "fd_hs_key_update",
                           "leaf_hs_newsessionticket", "leaf_hs_hello_retry_request", "leaf_hs_server_hello_msg", "leaf_hs_server_hello", "leaf_hs_certificatestatus",
                           "leaf_hs_next_protocol", "leaf_hs_certificate", "mod_client_hello", "leaf_hs_client_hello_sid33", "leaf_cipher_suites", "leaf_compressions",
-                          "shim_be", "shim_take", "shim_length_data"],
+                          "shim_be", "shim_take", "shim_length_data", "shim_opt_cond"],
                    thorough=["leaf_hs_certificate_request", "mod_client_hello_long"], timeout=900, timeout_thorough=2400)],
         paired={"dispatch_hs": []},
         explanation="see level_text",
@@ -202,7 +203,7 @@ PROPS = {
         level_text="Unbounded deductive proofs (Verus) on the real parse_dtls_message_handshake (12-byte header fields verbatim, take(fragment_length), is_fragment <=> offset>0 or fragment_length<length, Fragment of exactly fragment_length bytes, body table, Switch otherwise), parse_dtls_plaintext_record (13-byte header, cap, Incomplete iff truncated with exact Needed, glue), parse_dtls_record_with_header and parse_dtls_plaintext_records (explicit loops). The 13-byte header decode is a full-domain Kani proof; the body parsers (ClientHello with cookie, HelloVerifyRequest, fragment) are Kani contract harnesses, bounded in input length.",
         level_note="Trusted: nom shims (be_u8/16/24, take, map, map_parser, complete, many1); DTLS body parsers uninterpreted in Verus; R9 (closure signature + ensures), R10 (constructor eta-expanded into a closure with its trivial contract); ServerHello/Certificate/ServerDone/ClientKeyExchange bodies are the C04 parsers (checked there).",
         technique="contract-based deductive verification: Verus on extracted dispatcher/record glue + Kani full-domain header harness and leaf harnesses",
-        verus=["dtls", "dtls_many"],
+        verus=["dtls", "dtls_many", "bodies2"],
         kani=[dict(quick=["fd_dtls_header", "fd_dtls_ccs_alert", "fd_dtls_is_fragment", "leaf_dtls_hvr", "leaf_dtls_fragment", "mod_dtls_client_hello", "shim_be", "shim_take", "shim_map_parser", "shim_many1"], timeout=900)],
         explanation="see level_text",
     ),
@@ -291,7 +292,7 @@ PROPS = {
         level_text="'f(b) returns' = every compiler-inserted check (slice bounds, arithmetic overflow, unwrap/expect, debug_assert, unreachable) reachable from the function is discharged. Verus discharges them for all inputs on the extracted bodies (record framing, plaintext glue, handshake / extension / DTLS dispatchers, record-payload containers, multi-record parsers) and - with NO precondition on the object state, hence for every finite call sequence - on all four TlsRecordsParser methods, including the 10 MiB buffer bound. Kani discharges them on the compiled code (crate + nom + core, overflow checks and debug assertions on) for every body/content/leaf parser, with each manual index/subtraction guard site driven by its numeric parameter over the full usize/u16 domain (len-4, ext_len-1, len%2, len>i.len(), chunk[1], take(32)->[u8;32] expect, heartbeat len<3); bounded in input length.",
         level_note="NOT decided: the heap-use bound (neither verifier has a resource model; only the defragmenter's buffer cap is proved); Debug/Display of structured values (core::fmt is beyond CBMC's budget; tls_debug.rs has no indexing and one multiplication dh_g.len()*8 bounded by the parser's u16 length; registry newtypes' Display/Debug run for every value in the C17 stand-in); termination of nom's many0/many1 loops beyond the stated input bounds (their progress guard is in nom's source; the shim harnesses exercise it).",
         technique="contract-based deductive verification (Verus, unbounded) + Kani panic-freedom obligations on the compiled code (bounded length)",
-        verus=["defrag", "frame", "plaintext", "many", "dispatch_hs", "dispatch_ext", "ext_lists", "bodies", "messages", "ext_contents", "ext_lists2", "sct", "dtls", "dtls_many"],
+        verus=["defrag", "frame", "plaintext", "many", "dispatch_hs", "dispatch_ext", "ext_lists", "bodies", "bodies2", "messages", "ext_contents", "ext_lists2", "sct", "dtls", "dtls_many"],
         kani=[dict(quick=["leaf_cipher_suites", "leaf_compressions", "leaf_tls_versions", "leaf_named_groups", "leaf_hs_newsessionticket", "leaf_ext_status_request", "leaf_ext_supported_versions",
                           "leaf_sct_entry", "leaf_msg_heartbeat", "leaf_prwh_heartbeat", "leaf_prwh_appdata", "fd_raw_record_small", "mod_client_hello", "mod_dtls_client_hello",
                           "leaf_hs_certificate", "leaf_ext_sni", "leaf_ec_parameters", "fd_dtls_header", "fd_defrag_default"],
